@@ -1427,7 +1427,37 @@ func callSitesWideEnough(c *Ctx, ex *layout.Extractor, pkgs []*packages.Package,
 					return true
 				}
 				n++
-				w := constSliceWidth(info, call.Args[pi])
+				arg := call.Args[pi]
+				// a local defined once by a slice expression (entry := table[pos : pos+K]) stands for that expression
+				if id, isId := ast.Unparen(arg).(*ast.Ident); isId {
+					if obj := info.Uses[id]; obj != nil {
+						defs, assigns := 0, 0
+						var rhs ast.Expr
+						ast.Inspect(file, func(m ast.Node) bool {
+							as, ok := m.(*ast.AssignStmt)
+							if !ok {
+								return true
+							}
+							for i, l := range as.Lhs {
+								lid, ok := l.(*ast.Ident)
+								if !ok {
+									continue
+								}
+								if info.Defs[lid] == obj && len(as.Rhs) == len(as.Lhs) {
+									defs++
+									rhs = as.Rhs[i]
+								} else if info.Uses[lid] == obj {
+									assigns++
+								}
+							}
+							return true
+						})
+						if defs == 1 && assigns == 0 && rhs != nil {
+							arg = rhs
+						}
+					}
+				}
+				w := constSliceWidth(info, arg)
 				if w < need {
 					okAll = false
 				}
